@@ -94,6 +94,21 @@ def cursor_part(run):
             step = 1 if len(tl) <= 1 else (5 if len(tl) == 2 else 40)
             for sq in seqs[::step]:
                 cases.append((tl, sq))
+    # directed: every multi-token search / match exactly at the END of the list (and one token short of it, and one token before the end)
+    a_, sel_, one_, com_, as_ = TOKS[0], TOKS[1], TOKS[2], TOKS[5], TOKS[6]
+    END_CASES = [("su3 " + w("A") + " " + w(",") + " " + w("A"), [a_, com_, a_]), ("Su3 " + w("A") + " " + w(",") + " " + w("1"), [a_, com_, one_]),
+                 ("su3 " + w("SELECT") + " " + w("A") + " " + w("AS"), [sel_, a_, as_]), ("Su3 " + w("SELECT") + " " + w("A") + " " + w("AS"), [sel_, a_, as_]),
+                 ("su2 " + w("A") + " " + w("SELECT"), [a_, sel_]), ("su2 " + w("SELECT") + " " + w("A"), [sel_, a_]), ("Su2 " + w("A") + " " + w(","), [a_, com_]),
+                 ("s s:" + w("a") + " s:" + w(","), [a_, com_]), ("S s:" + w("a") + " m:8", [a_, one_]), ("m s:" + w("select") + " s:" + w("a"), [sel_, a_]),
+                 ("m m:2 m:2", [a_, as_]), ("s m:2 s:" + w(",") + " m:2", [a_, com_, as_]), ("S m:2 s:" + w(",") + " m:8", [a_, com_, one_]),
+                 ("su " + w("AS"), [as_]), ("Su " + w("A"), [a_]), ("Ss " + w(","), [com_]), ("ss " + w("a"), [a_]), ("sm 2", [a_]), ("Sset " + w(",") + " " + w("a"), [com_]),
+                 ("Ssetu " + w("AS") + " " + w("SELECT"), [sel_])]
+    for op, mt in END_CASES:
+        for pre in ([], [one_], [one_, com_]):
+            for tl in (pre + mt, pre + mt[:-1], pre + mt + [one_], pre + mt[1:]):
+                mv = ["mv %d" % len(pre)] if pre else []
+                cases.append((tl, mv + [op]))
+                cases.append((tl, mv + [op, op, "fin"]))
     nrand = 6000 if tier_q else 60000
     for _ in range(nrand):
         tl = [run.rng.choice(TOKS) for _ in range(run.rng.randint(0, 6))]
